@@ -3,6 +3,7 @@
 use crate::mac::*;
 use crate::macgen::*;
 use crate::macsuites::*;
+use crate::oracle::num_default_channels;
 use crate::util::*;
 
 pub fn eval(op: &str) -> String {
@@ -64,6 +65,29 @@ pub fn run(tier: &str, seed: u64, dir: &str) {
                 }
                 let op = h.done();
                 sink.case(&op, &eval(&op), "dlchannel-remap", true);
+            }
+            // sequences of DlChannelReq for one channel: the same frequency repeated (a network
+            // repeats the request until it hears the answer), a change, and the channel's own
+            // uplink frequency (drops the separate downlink frequency)
+            let own = default_ch0(region);
+            let (fa, fb) = (lo + 700_000, lo + 300_000);
+            for seq in [vec![fa, fa], vec![fa, fa, fa], vec![fa, fb], vec![fa, own], vec![fa, own, fa], vec![own, fa, fa], vec![fa, fb, fb, fa]] {
+                for idx in 0..num_default_channels(region) as u8 {
+                    // channel `idx` is a default channel; its uplink frequency is `own` only for idx 0
+                    let mut h = Hist::new("C10", region, 20, 0, rng.next() & 0xff, &[], None);
+                    h.abp().send(1, false, &[1]);
+                    for (k, f) in seq.iter().enumerate() {
+                        let f = if *f == own && idx != 0 { fb + 100_000 } else { *f };
+                        h.rx_auth(if k % 2 == 0 { "rx1" } else { "rx2" }, 0, 1, false, &dl_channel_req(idx, f), None, &[]).snap();
+                        for _ in 0..3 {
+                            h.send(1, false, &[2]).timeout().snap();
+                        }
+                        h.send(1, k % 2 == 1, &[3]);
+                    }
+                    h.timeout().snap();
+                    let op = h.done();
+                    sink.case(&op, &eval(&op), "dlchannel-sequence", true);
+                }
             }
         }
         let n = if thorough { 1500 } else { 80 };
